@@ -6,7 +6,7 @@ import core, store_common as sc
 ID = 'C15'
 GENMODS = ['gen_store']
 TARGET = 'props/C15.vo'
-PROOF_FILES = ['proof/C15.v', 'props/C15.v']
+PROOF_FILES = ['proof/C15.v', 'proof/IniProofs.v', 'proof/C15Text.v', 'props/C15.v']
 AXIOMS = []
 TRUSTED = [
     'Coq 8.16.1 kernel; vm_compute for the correspondence evaluation; no axioms',
@@ -156,12 +156,17 @@ def correspond(ctx):
     dist = {'with_variables': sum(1 for c in cases if any(s[0] == 'Variables' for s, _ in c['model']['sections'])),
             'section_refs': sum(1 for c in cases for s, es in c['model']['sections'] for e in es for f in e['frags'] if f[0] == 'ref'),
             'variables_named_like_keys': sum(1 for c in cases for s, es in c['model']['sections'] if s[0] == 'Variables' for e in es if e['key'][1] in ('nr', 'x', 'y', 'target', 'cutoff', 'dr', 'Al'))}
-    return {'evaluations': len(cases), 'cases': cases, 'nontrivial': core.distinct_count([c for c in cases if any(s[0] == 'Variables' for s, _ in c['model']['sections'])]),
+    # characters (model/TextInterp.v): every value of generated files with placeholders (nested, shadowed names, ${SECTION:KEY}, "$$",
+    # malformed "$") through parse_ini + tget against the parser's get()
+    import ini_common as ic
+    idis, istats = ic.check_interp(ctx, 600 if ctx['thorough'] else 150, 'C15i'); dis += idis; dist.update(istats)
+    return {'evaluations': len(cases) + istats['template_files'], 'cases': cases, 'nontrivial': core.distinct_count([c for c in cases if any(s[0] == 'Variables' for s, _ in c['model']['sections'])]),
             'rule': 'generated pair/EAM/FS models with random numeric literals lifted into [Variables] (${NAME}, nested, ${SECTION:KEY}), unused variables and variables named like keys of other sections (nr, x, y, target, cutoff, dr, Al): '
                     'keys iterated per section and interpolated values compared with the model; non-trivial = the file has a [Variables] section',
             'samples': cases[:1], 'distribution': dist, 'disagreements': dis[:20], 'oracle_cases': cases}
 
 def oracle(case):
+    if case.get('kind') in ('ini', 'store_text'): return []      # text-level correspondence cases
     m = case['model']
     a = sc.classify(lambda: sc.tabulate(render_templated(m)))
     sub = substitute_by_hand(m)
